@@ -9,6 +9,10 @@ package reftable
 // record.go: varints, keys, record values
 // ---------------------------------------------------------------------------------------------
 
+// groups of bookkeeping ghosts (declared further down) for use in modifies clauses
+//@ ghostgroup yielded = yRefSeq, yRefName, yRefIdx, yRefVal, yRefValLen, yRefTV, yRefTVLen, yRefTarget, yRefDel, wRefAtYield, refsDone, yLogSeq, yLogName, yLogIdx, yLogNew, yLogNewLen, yLogOld, yLogOldLen, yLogPName, yLogEmail, yLogTime, yLogTZ, yLogMsg, wLogAtYield, logsDone
+//@ ghostgroup taken = wRefSeq, wRefName, wRefIdx, wRefVal, wRefValLen, wRefTV, wRefTVLen, wRefTarget, wLogSeq, wLogName, wLogIdx, wLogNew, wLogNewLen, wLogOld, wLogOldLen, wLogPName, wLogEmail, wLogTime, wLogTZ, wLogMsg
+
 //@ func getVarInt
 //@   results val, n
 //@   props C18 C19
@@ -151,7 +155,7 @@ package reftable
 //@   props C18 C19
 //@   requires wfBR(br) && typeOK(br)
 //@   nopanic
-//@   modifies lastDelta
+//@   modifies lastDelta, yielded
 //@   ensures result1 == nil ==> result0 != nil && fresh(result0) && result0.br == br
 //@   loop 1 invariant it.br == br && wfBR(br) && allocated(br) && fresh(it)
 //@   loop 1 decreases len(br.block) + 1 - it.nextOffset
@@ -160,7 +164,7 @@ package reftable
 //@   props C18 C19
 //@   requires wfBI(bi) && typeOK(bi.br)
 //@   nopanic
-//@   modifies bi.ALLFIELDS, lastDelta
+//@   modifies bi.ALLFIELDS, lastDelta, yielded
 //@   ensures result == nil ==> bi.br == old(bi.br)
 
 // ---------------------------------------------------------------------------------------------
@@ -284,14 +288,14 @@ package reftable
 //@   props C18 C19
 //@   requires wfTI(i)
 //@   nopanic
-//@   modifies buflen, bufdata, lastDelta, lastSought, i.blockOff, i.bi.ALLFIELDS, i.finished
+//@   modifies buflen, bufdata, lastDelta, lastSought, i.blockOff, i.bi.ALLFIELDS, i.finished, seekOn, seekName, seekIdx, yielded
 //@   ensures result1 == nil ==> wfTI(i)
 
 //@ func (*tableIter).nextInBlock
 //@   props C18 C19 C11
 //@   requires wfTI(i) && recMatches(rec, i.typ)
 //@   nopanic
-//@   modifies i.bi.lastKey, i.bi.nextOffset, rec, lastDelta
+//@   modifies i.bi.lastKey, i.bi.nextOffset, rec, lastDelta, yielded
 //@   ensures wfTI(i)
 //@   ensures[abs-index] {C11,C01} result0 && istype(rec, *RefRecord) ==> asptr(rec, *RefRecord).UpdateIndex == wrap64(lastDelta + i.r.header.MinUpdateIndex)
 
@@ -299,7 +303,7 @@ package reftable
 //@   props C18 C19
 //@   requires wfTI(i) && recMatches(rec, i.typ)
 //@   nopanic
-//@   modifies buflen, bufdata, lastDelta, lastSought, i.blockOff, i.bi.ALLFIELDS, i.finished, rec
+//@   modifies buflen, bufdata, lastDelta, lastSought, i.blockOff, i.bi.ALLFIELDS, i.finished, rec, seekOn, seekName, seekIdx, yielded
 //@   ensures result1 == nil ==> wfTI(i)
 //@   loop 1 invariant wfTI(i) && recMatches(rec, i.typ)
 
@@ -307,21 +311,21 @@ package reftable
 //@   props C18 C19
 //@   requires wfReader(r)
 //@   nopanic
-//@   modifies buflen, bufdata, lastDelta, lastSought
+//@   modifies buflen, bufdata, lastDelta, lastSought, seekOn, seekName, seekIdx, yielded
 //@   ensures result1 == nil && result0 != nil ==> fresh(result0) && wfTI(result0) && (wantTyp == 0 || result0.typ == wantTyp)
 
 //@ func (*Reader).start
 //@   props C18 C19
 //@   requires wfReader(r)
 //@   nopanic
-//@   modifies buflen, bufdata, lastDelta, lastSought
+//@   modifies buflen, bufdata, lastDelta, lastSought, seekOn, seekName, seekIdx, yielded
 //@   ensures result1 == nil && result0 != nil ==> fresh(result0) && wfTI(result0) && ((index && result0.typ == 'i') || (!index && (typ == 0 || result0.typ == typ)))
 
 //@ func (*Reader).seekLinear
 //@   props C18 C19
 //@   requires wfReader(r) && wfTI(tabIter) && recMatches(want, tabIter.typ)
 //@   nopanic
-//@   modifies buflen, bufdata, lastDelta, lastSought, tabIter.ALLFIELDS
+//@   modifies buflen, bufdata, lastDelta, lastSought, tabIter.ALLFIELDS, seekOn, seekName, seekIdx, yielded
 //@   ensures result1 == nil ==> wfTI(tabIter) && tabIter.typ == old(tabIter.typ)
 //@   ensures result0 ==> result1 == nil
 //@   loop 1 invariant wfTI(tabIter) && tabIter.typ == old(tabIter.typ) && recMatches(rec, tabIter.typ) && fresh(iref(rec))
@@ -333,7 +337,7 @@ package reftable
 //@   props C18 C19
 //@   requires wfReader(r) && recAny(rec)
 //@   nopanic
-//@   modifies buflen, bufdata, lastDelta, lastSought
+//@   modifies buflen, bufdata, lastDelta, lastSought, seekOn, seekName, seekIdx, yielded
 //@   ensures result1 == nil && result0 != nil ==> fresh(result0)
 //@   ensures result1 == nil && result0 != nil ==> wfTI(result0)
 //@   ensures result1 == nil && result0 != nil ==> result0.typ == typOf(rec)
@@ -342,7 +346,7 @@ package reftable
 //@   props C18 C19
 //@   requires wfReader(r) && recAny(want)
 //@   nopanic
-//@   modifies buflen, bufdata, lastDelta, lastSought
+//@   modifies buflen, bufdata, lastDelta, lastSought, seekOn, seekName, seekIdx, yielded
 //@   ensures result1 == nil && result0 != nil ==> fresh(result0) && wfTI(result0) && result0.typ == typOf(want)
 //@   loop 1 invariant wfTI(idxIter) && idxIter.typ == 'i' && fresh(idxIter)
 
@@ -350,47 +354,47 @@ package reftable
 //@   props C18 C19
 //@   requires wfReader(r) && recAny(rec)
 //@   nopanic
-//@   modifies buflen, bufdata, lastDelta, lastSought
+//@   modifies buflen, bufdata, lastDelta, lastSought, seekOn, seekName, seekIdx, yielded
 //@   ensures result1 == nil ==> result0 != nil
 
 //@ func (*Reader).SeekRef
 //@   props C18 C19
 //@   requires wfReader(r)
 //@   nopanic
-//@   modifies buflen, bufdata, lastDelta, lastSought
+//@   modifies buflen, bufdata, lastDelta, lastSought, seekOn, seekName, seekIdx, yielded
 
 //@ func (*Reader).SeekLog
 //@   props C18 C19
 //@   requires wfReader(r)
 //@   nopanic
-//@   modifies buflen, bufdata, lastDelta, lastSought
+//@   modifies buflen, bufdata, lastDelta, lastSought, seekOn, seekName, seekIdx, yielded
 
 //@ func (*Reader).RefsFor
 //@   props C18 C19 C11
 //@   requires wfReader(r) && r.objectIDLen >= 0
 //@   nopanic
 //@   ensures[never-nil] result1 == nil ==> result0 != nil && iref(result0.impl) != 0
-//@   modifies buflen, bufdata, lastDelta, lastSought
+//@   modifies buflen, bufdata, lastDelta, lastSought, seekOn, seekName, seekIdx, yielded
 
 //@ func (*Reader).refsForIndexed
 //@   props C18 C19 C11
 //@   requires wfReader(r) && r.objectIDLen >= 0
 //@   nopanic
 //@   ensures result0 != nil ==> iref(result0.impl) != 0
-//@   modifies buflen, bufdata, lastDelta, lastSought
+//@   modifies buflen, bufdata, lastDelta, lastSought, seekOn, seekName, seekIdx, yielded
 
 //@ func (*indexedTableRefIter).nextBlock
 //@   props C18 C19 C11
 //@   requires i != nil && wfReader(i.r)
 //@   nopanic
-//@   modifies buflen, bufdata, lastDelta, lastSought, i.offsets, i.cur.ALLFIELDS, i.finished
+//@   modifies buflen, bufdata, lastDelta, lastSought, i.offsets, i.cur.ALLFIELDS, i.finished, seekOn, seekName, seekIdx, yielded
 //@   ensures result == nil && (old(len(i.offsets)) > 0 || old(wfBI(i.cur))) ==> wfBI(i.cur)
 
 //@ func (*indexedTableRefIter).Next
 //@   props C18 C19 C11
 //@   requires i != nil && wfReader(i.r) && wfBI(i.cur) && istype(rec, *RefRecord) && iref(rec) != 0
 //@   nopanic
-//@   modifies buflen, bufdata, lastDelta, lastSought, i.offsets, i.cur.ALLFIELDS, i.finished, rec
+//@   modifies buflen, bufdata, lastDelta, lastSought, i.offsets, i.cur.ALLFIELDS, i.finished, rec, seekOn, seekName, seekIdx, yielded
 //@   ensures[same-update-index-as-seek] {C11} result0 ==> asptr(rec, *RefRecord).UpdateIndex == wrap64(lastDelta + i.r.header.MinUpdateIndex)
 //@   ensures[points-at-oid] {C11} result0 ==> bytesEq(asptr(rec, *RefRecord).Value, i.oid) || bytesEq(asptr(rec, *RefRecord).TargetValue, i.oid)
 //@   loop 1 invariant i != nil && wfReader(i.r) && wfBI(i.cur) && ref != nil && allocated(ref)
@@ -611,14 +615,14 @@ package reftable
 // SeekRef/SeekLog performs no further SeekRef (lastSought is left alone).
 //@ iface iterator.Next
 //@   params rec
-//@   modifies buflen, bufdata, lastDelta, rec, anyof(*tableIter), anyof(*indexedTableRefIter), anyof(*blockIter)
+//@   modifies buflen, bufdata, lastDelta, rec, anyof(*tableIter), anyof(*indexedTableRefIter), anyof(*blockIter), yielded
 
 //@ spec wfMI(m *mergedIter) bool = m != nil && heapOK(m.pq) && (m.typ == 'r' || m.typ == 'g' || m.typ == 'o' || m.typ == 'i') && (forall k int :: 0 <= k && k < len(m.pq.heap) ==> 0 <= m.pq.heap[k].index && m.pq.heap[k].index < len(m.stack))
 
 //@ func (*mergedIter).advanceSubIter
 //@   props C03 C19
 //@   requires wfMI(m) && 0 <= index && index < len(m.stack)
-//@   modifies buflen, bufdata, lastDelta, lastSought, m.pq.heap, m.pq.heap[:cap(m.pq.heap)], m.stack[index], anyof(*tableIter), anyof(*indexedTableRefIter), anyof(*blockIter)
+//@   modifies buflen, bufdata, lastDelta, lastSought, m.pq.heap, m.pq.heap[:cap(m.pq.heap)], m.stack[index], anyof(*tableIter), anyof(*indexedTableRefIter), anyof(*blockIter), seekOn, seekName, seekIdx, yielded
 //@   ensures len(m.stack) == old(len(m.stack)) && m != nil && (m.typ == 'r' || m.typ == 'g' || m.typ == 'o' || m.typ == 'i')
 //@   ensures[d1] recsOK(m.pq)
 //@   ensures[d2] ordered(m.pq)
@@ -672,7 +676,7 @@ package reftable
 //@ func (*mergedIter).init
 //@   props C03 C19
 //@   requires it != nil && len(it.pq.heap) == 0 && (it.typ == 'r' || it.typ == 'g' || it.typ == 'o' || it.typ == 'i')
-//@   modifies buflen, bufdata, lastDelta, lastSought, it.pq.heap, it.pq.heap[:cap(it.pq.heap)], it.stack[:], anyof(*tableIter), anyof(*indexedTableRefIter), anyof(*blockIter)
+//@   modifies buflen, bufdata, lastDelta, lastSought, it.pq.heap, it.pq.heap[:cap(it.pq.heap)], it.stack[:], anyof(*tableIter), anyof(*indexedTableRefIter), anyof(*blockIter), seekOn, seekName, seekIdx, yielded
 //@   ensures result == nil ==> wfMI(it)
 //@   ensures it.typ == old(it.typ) && it.suppressDeletions == old(it.suppressDeletions) && len(it.stack) == old(len(it.stack))
 //@   loop 1 invariant[a] it != nil && it.typ == old(it.typ) && it.suppressDeletions == old(it.suppressDeletions) && it.stack == old(it.stack) && -1 <= rangeindex && rangeindex < len(it.stack)
@@ -682,7 +686,7 @@ package reftable
 
 //@ iface Table.seekRecord
 //@   params rec
-//@   modifies buflen, bufdata, lastDelta, lastSought, anyof(*tableIter), anyof(*indexedTableRefIter), anyof(*blockIter)
+//@   modifies buflen, bufdata, lastDelta, lastSought, anyof(*tableIter), anyof(*indexedTableRefIter), anyof(*blockIter), seekOn, seekName, seekIdx, yielded
 //@   ensures result1 == nil ==> result0 != nil
 
 //@ iface Table.Name
@@ -693,7 +697,7 @@ package reftable
 //@ func (*Merged).seekRecord
 //@   props C03 C19
 //@   requires m != nil && recAny(rec)
-//@   modifies buflen, bufdata, lastDelta, lastSought, anyof(*tableIter), anyof(*indexedTableRefIter), anyof(*blockIter)
+//@   modifies buflen, bufdata, lastDelta, lastSought, anyof(*tableIter), anyof(*indexedTableRefIter), anyof(*blockIter), seekOn, seekName, seekIdx, yielded
 //@   ensures[is-merged-iter] result1 == nil ==> istype(result0, *mergedIter) && fresh(iref(result0)) && iref(result0) != 0
 //@   ensures[view-flag] result1 == nil ==> asptr(result0, *mergedIter).suppressDeletions == m.suppressDeletions
 //@   ensures[typ] result1 == nil ==> asptr(result0, *mergedIter).typ == typOf(rec)
@@ -701,16 +705,27 @@ package reftable
 //@   ensures[wf] result1 == nil ==> wfMI(asptr(result0, *mergedIter))
 //@   loop 1 invariant -1 <= rangeindex && rangeindex < len(m.stack) && len(m.stack) == old(len(m.stack)) && len(its) == rangeindex + 1 && len(names) == rangeindex + 1 && (its == nil || fresh(its)) && (names == nil || fresh(names))
 
+// ghost: the merged view and the key of the most recent Merged.SeekRef / SeekLog (C07: the compaction reads the merge
+// of exactly its input tables, from the very start)
+//@ ghost seekOn *Merged
+//@ ghost seekName string
+//@ ghost seekIdx uint64
 //@ func (*Merged).SeekRef
-//@   props C03 C19
+//@   props C03 C19 C07
 //@   requires m != nil
-//@   modifies buflen, bufdata, lastDelta, lastSought, anyof(*tableIter), anyof(*indexedTableRefIter), anyof(*blockIter)
+//@   modifies buflen, bufdata, lastDelta, lastSought, anyof(*tableIter), anyof(*indexedTableRefIter), anyof(*blockIter), yielded
+//@   sets seekOn = m
+//@   sets seekName = name
+//@   modifies seekIdx
 //@   ensures result1 == nil ==> result0 != nil && iref(result0.impl) != 0 && istype(result0.impl, *mergedIter) && asptr(result0.impl, *mergedIter).suppressDeletions == m.suppressDeletions && asptr(result0.impl, *mergedIter).typ == 'r' && wfMI(asptr(result0.impl, *mergedIter))
 
 //@ func (*Merged).SeekLog
-//@   props C03 C19
+//@   props C03 C19 C07
 //@   requires m != nil
-//@   modifies buflen, bufdata, lastDelta, lastSought, anyof(*tableIter), anyof(*indexedTableRefIter), anyof(*blockIter)
+//@   modifies buflen, bufdata, lastDelta, lastSought, anyof(*tableIter), anyof(*indexedTableRefIter), anyof(*blockIter), yielded
+//@   sets seekOn = m
+//@   sets seekName = refname
+//@   sets seekIdx = updateIndex
 //@   ensures result1 == nil ==> result0 != nil && iref(result0.impl) != 0 && istype(result0.impl, *mergedIter) && asptr(result0.impl, *mergedIter).suppressDeletions == m.suppressDeletions && asptr(result0.impl, *mergedIter).typ == 'g' && wfMI(asptr(result0.impl, *mergedIter))
 
 // A table's update-index range and hash id, as functions of the table value (tables are immutable once opened).
@@ -1020,7 +1035,7 @@ package reftable
 //@   trusted
 //@   requires wfStack(st)
 //@   requires[no-reuse-means-all-replaced] !reuseOpen ==> (forall j int :: 0 <= j && j < len(st.stack) ==> retired[st.stack[j].name])
-//@   modifies st.stack, st.merged, rdClosed, tblExists, listNames, listLen, lastReadNames, lastReadLen, buflen, bufdata, lastDelta, lastSought
+//@   modifies st.stack, st.merged, rdClosed, tblExists, listNames, listLen, lastReadNames, lastReadLen, buflen, bufdata, lastDelta, lastSought, seekOn, seekName, seekIdx, yielded
 //@   ensures wfStack(st) && listStable()
 //@   ensures[gc-keeps-listed-and-unknown] forall p string :: old(tblExists[p]) && !tblExists[p] ==> (exists j int :: 0 <= j && j < old(len(st.stack)) && p == pathJoin(theDir, old(st.stack[j].name)))
 //@   ensures old(held[listLock()]) ==> namesMatch(st)
@@ -1031,7 +1046,7 @@ package reftable
 //@ func NewStack
 //@   props C10 C05 C06
 //@   requires heldWf() && dir == theDir && theListFile == pathJoin(dir, "tables.list") && (forall q *Reader :: rdClosed[q] ==> isalloc(q))
-//@   modifies rdClosed, tblExists, listNames, listLen, lastReadNames, lastReadLen, buflen, bufdata, lastDelta, lastSought
+//@   modifies rdClosed, tblExists, listNames, listLen, lastReadNames, lastReadLen, buflen, bufdata, lastDelta, lastSought, seekOn, seekName, seekIdx, yielded
 //@   ensures result1 == nil ==> result0 != nil && fresh(result0) && wfStack(result0)
 //@   ensures heldSame() && tmpSubset()
 
@@ -1082,17 +1097,17 @@ package reftable
 // coarse protocol-level contract (the format clauses are under C14)
 //@ func (*Writer).Close
 //@   trusted
-//@   modifies anyof(*Writer), anyof(*blockWriter), anyof(*paddedWriter)
+//@   modifies anyof(*Writer), anyof(*blockWriter), anyof(*paddedWriter), taken
 
 // Assumption about the caller-supplied transaction function: it writes only to the Writer it is given (and fresh memory).
 //@ callback (*Addition).Add#write
 //@   params w
-//@   modifies anyof(*Writer), anyof(*blockWriter), anyof(*paddedWriter)
+//@   modifies anyof(*Writer), anyof(*blockWriter), anyof(*paddedWriter), taken
 
 // coarse: opens and scans the new table (read-only on the directory)
 //@ func (*Stack).checkAddition
 //@   trusted
-//@   modifies buflen, bufdata, lastDelta, lastSought, listNames, listLen, lastReadNames, lastReadLen
+//@   modifies buflen, bufdata, lastDelta, lastSought, listNames, listLen, lastReadNames, lastReadLen, seekOn, seekName, seekIdx, yielded
 //@   ensures listStable()
 
 // C04/C05/C16: a table is added to the transaction only after it has been written, closed, checked and renamed into
@@ -1100,7 +1115,7 @@ package reftable
 //@ func (*Addition).Add
 //@   props C04 C05 C16 C08 C06
 //@   requires addInv(tr) && tr.lockFileName != ""
-//@   modifies held, ownsTmp, tblExists, fileClosed, fileOf, listNames, listLen, lastReadNames, lastReadLen, appends, commits, buflen, bufdata, lastDelta, lastSought, tr.names, tr.names[:cap(tr.names)], tr.newTables, tr.newTables[:cap(tr.newTables)], tr.nextUpdateIndex, anyof(*Writer), anyof(*blockWriter), anyof(*paddedWriter), retired, rdClosed
+//@   modifies held, ownsTmp, tblExists, fileClosed, fileOf, listNames, listLen, lastReadNames, lastReadLen, appends, commits, buflen, bufdata, lastDelta, lastSought, tr.names, tr.names[:cap(tr.names)], tr.newTables, tr.newTables[:cap(tr.newTables)], tr.nextUpdateIndex, anyof(*Writer), anyof(*blockWriter), anyof(*paddedWriter), retired, rdClosed, taken, seekOn, seekName, seekIdx, yielded
 //@   ensures[inv-a1] tr != nil && tr.stack == old(tr.stack) && tr.lockFileName == old(tr.lockFileName) && tr.lockFile == old(tr.lockFile) && appends == old(appends) && commits == old(commits)
 //@   ensures[inv-a2] heldWf()
 //@   ensures[inv-a3] sizesOKforStack(tr.stack)
@@ -1125,7 +1140,7 @@ package reftable
 //@ func (*Addition).Commit
 //@   props C04 C05 C08 C16 C06 C10
 //@   requires addInv(tr) && (len(tr.newTables) > 0 ==> tr.lockFileName != "")
-//@   modifies held, ownsTmp, tblExists, fileClosed, listNames, listLen, lastReadNames, lastReadLen, wNames, wLen, appends, commits, buflen, bufdata, lastDelta, lastSought, tr.lockFile, tr.lockFileName, tr.newTables, tr.stack.stack, tr.stack.merged, retired, rdClosed
+//@   modifies held, ownsTmp, tblExists, fileClosed, listNames, listLen, lastReadNames, lastReadLen, wNames, wLen, appends, commits, buflen, bufdata, lastDelta, lastSought, tr.lockFile, tr.lockFileName, tr.newTables, tr.stack.stack, tr.stack.merged, retired, rdClosed, seekOn, seekName, seekIdx, yielded
 //@   ensures[inv] closeInv(tr)
 //@   ensures[committed-a] old(len(tr.newTables)) > 0 ==> appends == old(appends) + 1
 //@   ensures[committed-b] old(len(tr.newTables)) > 0 ==> tr.lockFileName == ""
@@ -1138,36 +1153,103 @@ package reftable
 //@ ghost commits int
 //@ ghost lockFails int
 
-// coarse, trusted for now: refined under C01/C14
+// coarse and trusted at the protocol level (the encoding itself is C01/C14): AddRef/AddLog take the record they are
+// given; the ghosts remember the last one taken, field by field, and how many were taken.
+//@ ghost wRefSeq int
+//@ ghost wRefName string
+//@ ghost wRefIdx int
+//@ ghost wRefVal int
+//@ ghost wRefValLen int
+//@ ghost wRefTV int
+//@ ghost wRefTVLen int
+//@ ghost wRefTarget string
+//@ ghost wLogSeq int
+//@ ghost wLogName string
+//@ ghost wLogIdx int
+//@ ghost wLogNew int
+//@ ghost wLogNewLen int
+//@ ghost wLogOld int
+//@ ghost wLogOldLen int
+//@ ghost wLogPName string
+//@ ghost wLogEmail string
+//@ ghost wLogTime int
+//@ ghost wLogTZ int
+//@ ghost wLogMsg string
+
 //@ func (*Writer).AddRef
 //@   trusted
 //@   modifies anyof(*Writer), anyof(*blockWriter), anyof(*paddedWriter)
+//@   sets wRefSeq = wRefSeq + 1
+//@   sets wRefName = r.RefName
+//@   sets wRefIdx = r.UpdateIndex
+//@   sets wRefVal = ref(r.Value)
+//@   sets wRefValLen = len(r.Value)
+//@   sets wRefTV = ref(r.TargetValue)
+//@   sets wRefTVLen = len(r.TargetValue)
+//@   sets wRefTarget = r.Target
 
 //@ func (*Writer).AddLog
 //@   trusted
 //@   modifies anyof(*Writer), anyof(*blockWriter), anyof(*paddedWriter), l.Message
+//@   sets wLogSeq = wLogSeq + 1
+//@   sets wLogName = l.RefName
+//@   sets wLogIdx = l.UpdateIndex
+//@   sets wLogNew = ref(l.New)
+//@   sets wLogNewLen = len(l.New)
+//@   sets wLogOld = ref(l.Old)
+//@   sets wLogOldLen = len(l.Old)
+//@   sets wLogPName = l.Name
+//@   sets wLogEmail = l.Email
+//@   sets wLogTime = l.Time
+//@   sets wLogTZ = l.TZOffset
+//@   sets wLogMsg = old(l.Message)
+
+// C07/C13: what one loop iteration of the compaction did with the record the merged iterator produced.
+//@ spec refWrittenAsIs() bool = wRefSeq == wRefAtYield + 1 && wRefName == yRefName && wRefIdx == yRefIdx && wRefVal == yRefVal && wRefValLen == yRefValLen && wRefTV == yRefTV && wRefTVLen == yRefTVLen && wRefTarget == yRefTarget
+//@ spec refDropped() bool = wRefSeq == wRefAtYield
+//@ spec logWrittenAsIs() bool = wLogSeq == wLogAtYield + 1 && wLogName == yLogName && wLogIdx == yLogIdx && wLogNew == yLogNew && wLogNewLen == yLogNewLen && wLogOld == yLogOld && wLogOldLen == yLogOldLen && wLogPName == yLogPName && wLogEmail == yLogEmail && wLogTime == yLogTime && wLogTZ == yLogTZ && wLogMsg == yLogMsg
+//@ spec logDropped() bool = wLogSeq == wLogAtYield
+// the expiry rule of the statement (C13): older than the time limit, or outside the update-index window (0 = no limit)
+//@ spec expired(e *LogExpirationConfig, t uint64, u uint64) bool = e != nil && ((e.Time > 0 && t < e.Time) || (e.MaxUpdateIndex != 0 && u > e.MaxUpdateIndex) || (e.MinUpdateIndex != 0 && u < e.MinUpdateIndex))
 
 //@ func (*Writer).SetLimits
 //@   modifies w.minUpdateIndex, w.maxUpdateIndex
 //@   ensures w.minUpdateIndex == min && w.maxUpdateIndex == max
 
-// coarse protocol-level contract of the merge itself; the record-level step contracts are under C07/C13
+// C07/C13, step contracts of the merge: the tables merged are exactly st.stack[first..last], read from the start;
+// every ref record the merged iterator produces is handed to the writer unchanged, except a tombstone when the range
+// starts at the oldest table (first == 0); every log record is handed on unchanged unless it is expired by the rule of the
+// statement, and an expired one is never written; the loops end only when the iterator is exhausted (or on an error).
+//@ ghost mergedFirst int
+//@ ghost mergedLast int
+//@ ghost mergedExp *LogExpirationConfig
 //@ func (*Stack).writeCompact
-//@   props C07
+//@   props C07 C13
 //@   requires wfStack(st) && wr != nil && 0 <= first && first <= last && last < len(st.stack)
-//@   modifies buflen, bufdata, lastDelta, lastSought, st.Stats.EntriesWritten, anyof(*Writer), anyof(*blockWriter), anyof(*paddedWriter), anyof(*tableIter), anyof(*indexedTableRefIter), anyof(*blockIter)
+//@   ensures[all-records-visited] result == nil ==> refsDone && logsDone
+//@   sets mergedFirst = first
+//@   sets mergedLast = last
+//@   sets mergedExp = expiration
+//@   loop 2 invariant[ref-step] yRefSeq == old(yRefSeq) && wRefSeq == old(wRefSeq) || refWrittenAsIs() || (refDropped() && first == 0 && yRefDel)
+//@   loop 3 invariant[log-step] refsDone && (yLogSeq == old(yLogSeq) && wLogSeq == old(wLogSeq) || (logWrittenAsIs() && !expired(expiration, yLogTime, yLogIdx)) || (logDropped() && expired(expiration, yLogTime, yLogIdx)))
+//@   loop 3 invariant[refs-untouched] wRefSeq == wRefAtYield
+//@   modifies buflen, bufdata, lastDelta, lastSought, st.Stats.EntriesWritten, anyof(*Writer), anyof(*blockWriter), anyof(*paddedWriter), anyof(*tableIter), anyof(*indexedTableRefIter), anyof(*blockIter), taken, yielded, seekOn, seekName, seekIdx
 //@   ensures[no-lock-failure] result != ErrLockFailure
-//@   loop 1 invariant first <= i && (subtabs == nil || fresh(subtabs))
+//@   loop 1 invariant[range] first <= i && i <= last + 1 && (subtabs == nil || fresh(subtabs)) && len(subtabs) == i - first && (forall k int :: 0 <= k && k < len(subtabs) ==> iref(subtabs[k]) == st.stack[first + k] && istype(subtabs[k], *Reader))
 //@   loop 2 invariant it != nil && iref(it.impl) != 0 && wr != nil
+//@   loop 2 invariant[source] seekOn == merged && seekName == "" && merged.stack == subtabs && len(subtabs) == last - first + 1 && (forall k int :: 0 <= k && k < len(subtabs) ==> iref(subtabs[k]) == st.stack[first + k] && istype(subtabs[k], *Reader))
+//@   loop 1 invariant[limits] wr.minUpdateIndex == st.stack[first].header.MinUpdateIndex && wr.maxUpdateIndex == st.stack[last].header.MaxUpdateIndex
 //@   loop 3 invariant it != nil && iref(it.impl) != 0 && wr != nil
+//@   loop 3 invariant[source] seekOn == merged && seekName == "" && seekIdx == 18446744073709551615 && merged.stack == subtabs && len(subtabs) == last - first + 1 && (forall k int :: 0 <= k && k < len(subtabs) ==> iref(subtabs[k]) == st.stack[first + k] && istype(subtabs[k], *Reader))
 
 // C16: on success the temp file is handed to the caller; on failure nothing temporary is left.
 //@ func (*Stack).compactLocked
-//@   props C16 C05 C06
+//@   props C16 C05 C06 C07 C13
 //@   requires wfStack(st) && 0 <= first && first <= last && last < len(st.stack)
-//@   modifies held, ownsTmp, tblExists, fileClosed, fileOf, listNames, listLen, lastReadNames, lastReadLen, buflen, bufdata, lastDelta, lastSought, st.Stats.EntriesWritten, anyof(*Writer), anyof(*blockWriter), anyof(*paddedWriter), anyof(*tableIter), anyof(*indexedTableRefIter), anyof(*blockIter)
+//@   modifies held, ownsTmp, tblExists, fileClosed, fileOf, listNames, listLen, lastReadNames, lastReadLen, buflen, bufdata, lastDelta, lastSought, st.Stats.EntriesWritten, anyof(*Writer), anyof(*blockWriter), anyof(*paddedWriter), anyof(*tableIter), anyof(*indexedTableRefIter), anyof(*blockIter), taken, yielded, seekOn, seekName, seekIdx, mergedFirst, mergedLast, mergedExp
 //@   ensures listStable() && wfStack(st) && heldSame()
 //@   ensures[no-lock-failure] result1 != ErrLockFailure
+//@   ensures[merged-what-was-asked] result1 == nil || result1 == ErrEmptyTable ==> mergedFirst == first && mergedLast == last && mergedExp == expiration
 //@   ensures[temp-complete] result1 == nil ==> fileClosed[result0] && !tblExists[result0] && isTmpName(result0)
 //@   ensures[tables-kept] forall p string :: tblExists[p] == old(tblExists[p])
 //@   ensures[temp-handed-over] result1 == nil ==> ownsTmp[result0] && !isLock(result0) && result0 != theListFile && (forall p string :: p != result0 ==> (ownsTmp[p] ==> old(ownsTmp[p])))
@@ -1202,12 +1284,13 @@ package reftable
 //  - the new list is the old one with tables [first,last] replaced by at most one table;
 //  - if it reports success for a non-trivial range it has committed exactly one replacement (strict progress).
 //@ func (*Stack).compactRange
-//@   props C04 C05 C08 C09 C16 C17 C06 C10
+//@   props C04 C05 C08 C09 C16 C17 C06 C10 C07 C13
 //@   requires wfStack(st) && !held[listLock()]
 //@   requires (first < last || expiration != nil) ==> 0 <= first && first <= last && last < len(st.stack)
 //@   requires[expiry-rewrites-the-whole-stack] expiration != nil ==> first == 0 && last == len(st.stack) - 1
-//@   modifies held, ownsTmp, tblExists, fileClosed, fileOf, listNames, listLen, lastReadNames, lastReadLen, lockFails, wNames, wLen, appends, commits, buflen, bufdata, lastDelta, lastSought, st.stack, st.merged, st.Stats.Attempts, st.Stats.EntriesWritten, anyof(*Writer), anyof(*blockWriter), anyof(*paddedWriter), anyof(*tableIter), anyof(*indexedTableRefIter), anyof(*blockIter), retired, rdClosed
-//@   callsite os.Rename 2 ghost a = first; b = last; k = (emptyTable ? 0 : 1)
+//@   modifies held, ownsTmp, tblExists, fileClosed, fileOf, listNames, listLen, lastReadNames, lastReadLen, lockFails, wNames, wLen, appends, commits, buflen, bufdata, lastDelta, lastSought, st.stack, st.merged, st.Stats.Attempts, st.Stats.EntriesWritten, anyof(*Writer), anyof(*blockWriter), anyof(*paddedWriter), anyof(*tableIter), anyof(*indexedTableRefIter), anyof(*blockIter), retired, rdClosed, taken, yielded, seekOn, seekName, seekIdx, mergedFirst, mergedLast, mergedExp
+//@   callsite os.Rename 2 ghost a = mergedFirst; b = mergedLast; k = (emptyTable ? 0 : 1)
+//@   ensures[expiry-as-asked] result0 && (first < last || expiration != nil) ==> mergedExp == expiration
 //@   ensures[locks-released] heldSubset()
 //@   ensures[no-temp] tmpSubset()
 //@   ensures[no-transaction] appends == old(appends)
@@ -1250,11 +1333,11 @@ package reftable
 //@   loop 4 invariant[t] forall p string :: ownsTmp[p] ==> old(ownsTmp[p])
 
 //@ func (*Stack).compactRangeStats
-//@   props C04 C08 C16 C17
+//@   props C04 C08 C16 C17 C07 C13
 //@   requires wfStack(st) && !held[listLock()]
 //@   requires (first < last || expiration != nil) ==> 0 <= first && first <= last && last < len(st.stack)
 //@   requires[expiry-rewrites-the-whole-stack] expiration != nil ==> first == 0 && last == len(st.stack) - 1
-//@   modifies held, ownsTmp, tblExists, fileClosed, fileOf, listNames, listLen, lastReadNames, lastReadLen, lockFails, wNames, wLen, appends, commits, buflen, bufdata, lastDelta, lastSought, st.stack, st.merged, st.Stats.Attempts, st.Stats.Failures, st.Stats.EntriesWritten, anyof(*Writer), anyof(*blockWriter), anyof(*paddedWriter), anyof(*tableIter), anyof(*indexedTableRefIter), anyof(*blockIter), retired, rdClosed
+//@   modifies held, ownsTmp, tblExists, fileClosed, fileOf, listNames, listLen, lastReadNames, lastReadLen, lockFails, wNames, wLen, appends, commits, buflen, bufdata, lastDelta, lastSought, st.stack, st.merged, st.Stats.Attempts, st.Stats.Failures, st.Stats.EntriesWritten, anyof(*Writer), anyof(*blockWriter), anyof(*paddedWriter), anyof(*tableIter), anyof(*indexedTableRefIter), anyof(*blockIter), retired, rdClosed, taken, yielded, seekOn, seekName, seekIdx, mergedFirst, mergedLast, mergedExp
 //@   ensures heldSubset() && tmpSubset() && appends == old(appends) && wfStack(st)
 //@   ensures[no-lock-failure] result1 != ErrLockFailure
 //@   ensures[progress] result0 && (first < last || expiration != nil) ==> commits == old(commits) + 1
@@ -1271,30 +1354,30 @@ package reftable
 
 // C17: the range handed to the compaction is the chooser's: contiguous, at least two tables, inside the stack.
 //@ func (*Stack).AutoCompact
-//@   props C04 C08 C16 C17 C10
+//@   props C04 C08 C16 C17 C10 C07 C13
 //@   requires wfStack(st) && !held[listLock()]
-//@   modifies held, ownsTmp, tblExists, fileClosed, fileOf, listNames, listLen, lastReadNames, lastReadLen, lockFails, wNames, wLen, appends, commits, buflen, bufdata, lastDelta, lastSought, st.stack, st.merged, st.Stats.Attempts, st.Stats.Failures, st.Stats.EntriesWritten, anyof(*Writer), anyof(*blockWriter), anyof(*paddedWriter), anyof(*tableIter), anyof(*indexedTableRefIter), anyof(*blockIter), retired, rdClosed
+//@   modifies held, ownsTmp, tblExists, fileClosed, fileOf, listNames, listLen, lastReadNames, lastReadLen, lockFails, wNames, wLen, appends, commits, buflen, bufdata, lastDelta, lastSought, st.stack, st.merged, st.Stats.Attempts, st.Stats.Failures, st.Stats.EntriesWritten, anyof(*Writer), anyof(*blockWriter), anyof(*paddedWriter), anyof(*tableIter), anyof(*indexedTableRefIter), anyof(*blockIter), retired, rdClosed, taken, yielded, seekOn, seekName, seekIdx, mergedFirst, mergedLast, mergedExp
 //@   ensures heldSubset() && tmpSubset() && appends == old(appends) && wfStack(st)
 //@   ensures[no-lock-failure] result != ErrLockFailure
 //@   ensures commits <= old(commits) + 1
 
 //@ func (*Stack).CompactAll
-//@   props C04 C08 C16 C10
+//@   props C04 C08 C16 C10 C07 C13
 //@   requires wfStack(st) && !held[listLock()] && len(st.stack) > 0
-//@   modifies held, ownsTmp, tblExists, fileClosed, fileOf, listNames, listLen, lastReadNames, lastReadLen, lockFails, wNames, wLen, appends, commits, buflen, bufdata, lastDelta, lastSought, st.stack, st.merged, st.Stats.Attempts, st.Stats.EntriesWritten, anyof(*Writer), anyof(*blockWriter), anyof(*paddedWriter), anyof(*tableIter), anyof(*indexedTableRefIter), anyof(*blockIter), retired, rdClosed
+//@   modifies held, ownsTmp, tblExists, fileClosed, fileOf, listNames, listLen, lastReadNames, lastReadLen, lockFails, wNames, wLen, appends, commits, buflen, bufdata, lastDelta, lastSought, st.stack, st.merged, st.Stats.Attempts, st.Stats.EntriesWritten, anyof(*Writer), anyof(*blockWriter), anyof(*paddedWriter), anyof(*tableIter), anyof(*indexedTableRefIter), anyof(*blockIter), retired, rdClosed, taken, yielded, seekOn, seekName, seekIdx, mergedFirst, mergedLast, mergedExp
 //@   ensures heldSubset() && tmpSubset() && appends == old(appends) && wfStack(st)
 
 // Assumption about the caller-supplied transaction function (see (*Addition).Add#write).
 //@ callback (*Stack).add#write
 //@   params w
-//@   modifies anyof(*Writer), anyof(*blockWriter), anyof(*paddedWriter)
+//@   modifies anyof(*Writer), anyof(*blockWriter), anyof(*paddedWriter), taken
 
 // C04 (safety core): one transaction; an error means nothing was committed except on the return site of Commit's
 // reload (see known findings); nothing is left locked or temporary (C08, C16).
 //@ func (*Stack).add
 //@   props C04 C08 C09 C16 C10
 //@   requires wfStack(st) && !held[listLock()]
-//@   modifies held, ownsTmp, tblExists, fileClosed, fileOf, listNames, listLen, lastReadNames, lastReadLen, lockFails, wNames, wLen, appends, commits, buflen, bufdata, lastDelta, lastSought, st.stack, st.merged, anyof(*Writer), anyof(*blockWriter), anyof(*paddedWriter), anyof(*Addition), retired, rdClosed
+//@   modifies held, ownsTmp, tblExists, fileClosed, fileOf, listNames, listLen, lastReadNames, lastReadLen, lockFails, wNames, wLen, appends, commits, buflen, bufdata, lastDelta, lastSought, st.stack, st.merged, anyof(*Writer), anyof(*blockWriter), anyof(*paddedWriter), anyof(*Addition), retired, rdClosed, taken, seekOn, seekName, seekIdx, yielded
 //@   ensures[locks-released] heldSubset()
 //@   ensures[no-temp] tmpSubset()
 //@   ensures[at-most-one] appends <= old(appends) + 1 && appends >= old(appends)
@@ -1304,7 +1387,7 @@ package reftable
 //@ func (*Stack).Add
 //@   props C04 C08 C09 C16 C10
 //@   requires wfStack(st) && !held[listLock()]
-//@   modifies held, ownsTmp, tblExists, fileClosed, fileOf, listNames, listLen, lastReadNames, lastReadLen, lockFails, wNames, wLen, appends, commits, buflen, bufdata, lastDelta, lastSought, st.stack, st.merged, st.Stats.Attempts, st.Stats.Failures, st.Stats.EntriesWritten, anyof(*Writer), anyof(*blockWriter), anyof(*paddedWriter), anyof(*tableIter), anyof(*indexedTableRefIter), anyof(*blockIter), anyof(*Addition), retired, rdClosed
+//@   modifies held, ownsTmp, tblExists, fileClosed, fileOf, listNames, listLen, lastReadNames, lastReadLen, lockFails, wNames, wLen, appends, commits, buflen, bufdata, lastDelta, lastSought, st.stack, st.merged, st.Stats.Attempts, st.Stats.Failures, st.Stats.EntriesWritten, anyof(*Writer), anyof(*blockWriter), anyof(*paddedWriter), anyof(*tableIter), anyof(*indexedTableRefIter), anyof(*blockIter), anyof(*Addition), retired, rdClosed, taken, yielded, seekOn, seekName, seekIdx, mergedFirst, mergedLast, mergedExp
 //@   ensures[locks-released] heldSubset()
 //@   ensures[no-temp] tmpSubset()
 //@   ensures[at-most-one] appends <= old(appends) + 1 && appends >= old(appends)
@@ -1348,6 +1431,11 @@ package reftable
 
 //@ func (*Reader).MaxUpdateIndex
 //@   pure
+//@   ensures result == r.header.MaxUpdateIndex
+
+//@ func (*Reader).MinUpdateIndex
+//@   pure
+//@   ensures result == r.header.MinUpdateIndex
 
 //@ iface BlockSource.Close
 //@   pure
@@ -1358,7 +1446,7 @@ package reftable
 //@   props C16 C08 C10
 //@   requires wfStack(st) && !held[listLock()] && (forall i int :: 0 <= i && i < len(st.stack) ==> st.stack[i].src != nil)
 //@   nopanic
-//@   modifies held, ownsTmp, tblExists, fileClosed, fileOf, listNames, listLen, lastReadNames, lastReadLen, lockFails, buflen, bufdata, lastDelta, lastSought, st.stack, st.merged, anyof(*Addition), rdClosed
+//@   modifies held, ownsTmp, tblExists, fileClosed, fileOf, listNames, listLen, lastReadNames, lastReadLen, lockFails, buflen, bufdata, lastDelta, lastSought, st.stack, st.merged, anyof(*Addition), rdClosed, seekOn, seekName, seekIdx, yielded
 //@   ensures[locks-released] heldSubset()
 //@   ensures[no-temp] tmpSubset()
 //@   loop 1 invariant[set] -1 <= rangeindex && rangeindex < len(st.stack) && namesMatch(st) && (forall i int :: 0 <= i && i <= rangeindex ==> haskey(names, listNames[i]))
@@ -1390,25 +1478,78 @@ package reftable
 //@   nopanic
 //@   ensures !result0 && result1 == nil
 
+// Ghost bookkeeping for the compaction step contracts (C07, C13): the record most recently produced by NextRef/NextLog
+// (field by field; byte slices by the memory they point to) and how many records AddRef/AddLog had taken by then.
+//@ ghost yRefSeq int
+//@ ghost yRefName string
+//@ ghost yRefIdx int
+//@ ghost yRefVal int
+//@ ghost yRefValLen int
+//@ ghost yRefTV int
+//@ ghost yRefTVLen int
+//@ ghost yRefTarget string
+//@ ghost yRefDel bool
+//@ ghost wRefAtYield int
+//@ ghost refsDone bool
+//@ ghost yLogSeq int
+//@ ghost yLogName string
+//@ ghost yLogIdx int
+//@ ghost yLogNew int
+//@ ghost yLogNewLen int
+//@ ghost yLogOld int
+//@ ghost yLogOldLen int
+//@ ghost yLogPName string
+//@ ghost yLogEmail string
+//@ ghost yLogTime int
+//@ ghost yLogTZ int
+//@ ghost yLogMsg string
+//@ ghost wLogAtYield int
+//@ ghost logsDone bool
+
 //@ func (*Iterator).NextRef
-//@   props C19
+//@   props C19 C07 C13
 //@   requires it != nil && iref(it.impl) != 0 && ref != nil
-//@   modifies buflen, bufdata, lastDelta, ref.ALLFIELDS, anyof(*tableIter), anyof(*indexedTableRefIter), anyof(*blockIter)
+//@   modifies buflen, bufdata, lastDelta, ref.ALLFIELDS, anyof(*tableIter), anyof(*indexedTableRefIter), anyof(*blockIter), yielded
+//@   sets yRefSeq = yRefSeq + 1 if result0
+//@   sets yRefName = ref.RefName if result0
+//@   sets yRefIdx = ref.UpdateIndex if result0
+//@   sets yRefVal = ref(ref.Value) if result0
+//@   sets yRefValLen = len(ref.Value) if result0
+//@   sets yRefTV = ref(ref.TargetValue) if result0
+//@   sets yRefTVLen = len(ref.TargetValue) if result0
+//@   sets yRefTarget = ref.Target if result0
+//@   sets yRefDel = (ref.Value == nil && ref.TargetValue == nil && ref.Target == "") if result0
+//@   sets wRefAtYield = wRefSeq
+//@   sets refsDone = !result0 && result1 == nil
 
 //@ func (*Iterator).NextLog
-//@   props C19
+//@   props C19 C07 C13
 //@   requires it != nil && iref(it.impl) != 0 && log != nil
-//@   modifies buflen, bufdata, lastDelta, log.ALLFIELDS, anyof(*tableIter), anyof(*indexedTableRefIter), anyof(*blockIter)
+//@   modifies buflen, bufdata, lastDelta, log.ALLFIELDS, anyof(*tableIter), anyof(*indexedTableRefIter), anyof(*blockIter), yielded
+//@   sets yLogSeq = yLogSeq + 1 if result0
+//@   sets yLogName = log.RefName if result0
+//@   sets yLogIdx = log.UpdateIndex if result0
+//@   sets yLogNew = ref(log.New) if result0
+//@   sets yLogNewLen = len(log.New) if result0
+//@   sets yLogOld = ref(log.Old) if result0
+//@   sets yLogOldLen = len(log.Old) if result0
+//@   sets yLogPName = log.Name if result0
+//@   sets yLogEmail = log.Email if result0
+//@   sets yLogTime = log.Time if result0
+//@   sets yLogTZ = log.TZOffset if result0
+//@   sets yLogMsg = log.Message if result0
+//@   sets wLogAtYield = wLogSeq
+//@   sets logsDone = !result0 && result1 == nil
 
 //@ iface Table.SeekRef
 //@   params refName
-//@   modifies buflen, bufdata, lastDelta, anyof(*tableIter), anyof(*indexedTableRefIter), anyof(*blockIter)
+//@   modifies buflen, bufdata, lastDelta, anyof(*tableIter), anyof(*indexedTableRefIter), anyof(*blockIter), yielded
 //@   sets lastSought = refName
 //@   ensures result1 == nil ==> result0 != nil && fresh(result0) && iref(result0.impl) != 0
 
 //@ iface Table.RefsFor
 //@   params oid
-//@   modifies buflen, bufdata, lastDelta, lastSought, anyof(*tableIter), anyof(*indexedTableRefIter), anyof(*blockIter)
+//@   modifies buflen, bufdata, lastDelta, lastSought, anyof(*tableIter), anyof(*indexedTableRefIter), anyof(*blockIter), seekOn, seekName, seekIdx, yielded
 //@   ensures result1 == nil ==> result0 != nil && iref(result0.impl) != 0
 
 // C11: a record is returned only if its value or peeled value is the object id asked for; on a merged view
@@ -1417,7 +1558,7 @@ package reftable
 //@ func (*filteringRefIterator).Next
 //@   props C11 C19
 //@   requires fri != nil && iref(fri.it) != 0 && istype(rec, *RefRecord) && iref(rec) != 0 && (fri.doubleCheck ==> iref(fri.tab) != 0)
-//@   modifies buflen, bufdata, lastDelta, lastSought, rec, anyof(*tableIter), anyof(*indexedTableRefIter), anyof(*blockIter)
+//@   modifies buflen, bufdata, lastDelta, lastSought, rec, anyof(*tableIter), anyof(*indexedTableRefIter), anyof(*blockIter), seekOn, seekName, seekIdx, yielded
 //@   ensures[points-at-oid] result0 ==> bytesEq(asptr(rec, *RefRecord).Value, old(fri.oid)) || bytesEq(asptr(rec, *RefRecord).TargetValue, old(fri.oid))
 //@   ensures[double-check-name] result0 && old(fri.doubleCheck) ==> asptr(rec, *RefRecord).RefName == lastSought
 //@   loop 1 invariant fri != nil && allocated(fri) && allocated(iref(rec))
@@ -1426,7 +1567,7 @@ package reftable
 //@ func (*Merged).RefsFor
 //@   props C11 C19
 //@   requires m != nil && (forall i int :: 0 <= i && i < len(m.stack) ==> m.stack[i] != nil)
-//@   modifies buflen, bufdata, lastDelta, lastSought, anyof(*tableIter), anyof(*indexedTableRefIter), anyof(*blockIter)
+//@   modifies buflen, bufdata, lastDelta, lastSought, anyof(*tableIter), anyof(*indexedTableRefIter), anyof(*blockIter), seekOn, seekName, seekIdx, yielded
 //@   ensures[double-checked] result1 == nil ==> result0 != nil && istype(result0.impl, *filteringRefIterator) && asptr(result0.impl, *filteringRefIterator).doubleCheck && iref(asptr(result0.impl, *filteringRefIterator).tab) == m && istype(asptr(result0.impl, *filteringRefIterator).tab, *Merged) && asptr(result0.impl, *filteringRefIterator).oid == oid
 //@   ensures[merged-candidates] result1 == nil ==> istype(asptr(result0.impl, *filteringRefIterator).it, *mergedIter) && asptr(asptr(result0.impl, *filteringRefIterator).it, *mergedIter).typ == 'r' && len(asptr(asptr(result0.impl, *filteringRefIterator).it, *mergedIter).stack) == len(m.stack)
 //@   loop 1 invariant -1 <= rangeindex && rangeindex < len(m.stack) && mit != nil && fresh(mit) && mit.typ == 'r' && len(mit.pq.heap) == 0 && cap(mit.pq.heap) == 0 && len(mit.stack) == rangeindex + 1 && (mit.stack == nil || fresh(mit.stack)) && (mit.names == nil || fresh(mit.names)) && (ref(mit.stack) != ref(mit.names) || ref(mit.stack) == 0)
